@@ -86,6 +86,8 @@ def shape_flags(prog):
                 if top_if:
                     flags.add("file-level-loop-in-if")
                 top_loop = True
+            if e in ("rset",) and top_loop and not in_fun:
+                flags.add("record-store-in-file-level-loop")
             if e in ("if", "exit", "and", "or") and top_loop and not in_fun:
                 flags.add("file-level-conditional-in-loop")
             if e == "if" and x.get("t") == "unit" and not in_fun:
